@@ -162,6 +162,18 @@ impl NameMap {
 
             let namespace = *scope.0;
 
+            // Enum values are also visible in the scope that contains the enum
+            // Their names are not generated so other names have to avoid them
+            for i in 0..module.enum_registry.get_enum_count() {
+                let id = EnumId(i);
+                if module.enum_registry.get_enum_definition(id).namespace == namespace {
+                    for value_id in module.enum_registry.get_values(id) {
+                        let value_name = &module.enum_registry.get_enum_value(*value_id).name;
+                        used_names.insert(value_name.to_string());
+                    }
+                }
+            }
+
             // Sort map first to ensure if a name generates a conflict with another generated name it will be consistent
             let mut name_to_symbol_vec = Vec::from_iter(scope.1.iter());
             name_to_symbol_vec.sort_by(|l, r| String::cmp(l.0, r.0));
